@@ -50,6 +50,8 @@ fn main() {
                     "oracle" => props::oracle(&prop, t),
                     _ => props::tag(&prop, t),
                 };
+                // one answer per line, whatever text an error message carried
+                let res = if res.contains('\n') || res.contains('\r') { res.replace('\n', " ").replace('\r', " ") } else { res };
                 writeln!(out, "{}", res).unwrap();
             }
         }
